@@ -499,8 +499,14 @@ impl AtomTable {
                 return atom;
             }
 
+            #[cfg(feature = "verif_hooks")]
+            crate::machine::verif_hooks::atoms::yield_point(0);
+
             // take a lock to prevent concurrent updates
             let update_guard = atom_table.update.lock().unwrap();
+
+            #[cfg(feature = "verif_hooks")]
+            crate::machine::verif_hooks::atoms::yield_point(1);
 
             let is_same_allocation = RcuRef::same_epoch(&block_epoch, &atom_table.inner.read());
             let is_same_atom_list = RcuRef::same_epoch(&table_epoch, &block_epoch.table.read());
@@ -509,6 +515,8 @@ impl AtomTable {
                 // some other thread raced us between our lookup and
                 // us aquring the update lock,
                 // try again
+                #[cfg(feature = "verif_hooks")]
+                crate::machine::verif_hooks::atoms::count_retry();
                 continue;
             }
 
@@ -530,6 +538,11 @@ impl AtomTable {
                         atom_table.inner.replace(new_alloc);
                         block_epoch = atom_table.inner.read();
                         table_epoch = block_epoch.table.read();
+                        #[cfg(feature = "verif_hooks")]
+                        {
+                            crate::machine::verif_hooks::atoms::count_growth();
+                            crate::machine::verif_hooks::atoms::yield_point(2);
+                        }
                     } else {
                         break ptr;
                     }
@@ -551,6 +564,11 @@ impl AtomTable {
 
                 let mut table = table_epoch.clone();
                 table.insert(atom.into());
+                #[cfg(feature = "verif_hooks")]
+                {
+                    crate::machine::verif_hooks::atoms::count_insert();
+                    crate::machine::verif_hooks::atoms::yield_point(3);
+                }
                 block_epoch.table.replace(table);
 
                 // explicit drop to ensure we don't accidentally drop it early
